@@ -243,12 +243,18 @@ PROPS['C03'] = {
 }
 PROPS['C11'] = {
     'level': 'exploration',
+    'vx': [{'unit': 'builder'}],
     'bx': ['c11'],
-    'technique': 'bounded stand-in (exhaustive operation sequences over the sealing alphabet + random programs on the real MessageBuilder against the ordering rules of the statement)',
+    'technique': 'Verus contracts on the four guard functions of the real MessageBuilder (add_attribute, add_raw_attribute, add_message_integrity, add_fingerprint) over an abstract type list, with the two iterator-adaptor query helpers and the two sealing workers under assumed contracts; bounded stand-in (exhaustive operation sequences over the sealing alphabet + random programs on the real MessageBuilder against the ordering rules of the statement) for everything assumed',
     'rule': 'see engines.bx[0].rule',
-    'proved': [],
-    'bounded': ['all builder guard logic: BX, exhaustive for sequences up to length 5 (quick) / 6 (thorough) over {typed, raw, SHA-1, SHA-256, fingerprint}, random programs up to length 7 with into_owned/clone/duplicates'],
-    'trusted': _BX_TRUST,
+    'proved': ['(unit builder) add_attribute / add_raw_attribute: Err <==> the type is already present or the builder holds MESSAGE-INTEGRITY, MESSAGE-INTEGRITY-SHA256 or FINGERPRINT; on Err the whole builder is unchanged; on Ok exactly that attribute is appended to both the attribute list and the type list (representation invariant: the type list the queries answer from describes the attribute list that is serialised)',
+               '(unit builder) add_message_integrity: SHA-1 refused <==> MI, MI-SHA256 or FINGERPRINT present; SHA-256 refused <==> MI-SHA256 or FINGERPRINT present; refused => builder unchanged; accepted => one attribute of that type appended',
+               '(unit builder) add_fingerprint: refused <==> FINGERPRINT present; refused => builder unchanged',
+               'the documented panics of add_attribute/add_raw_attribute (integrity/fingerprint types passed directly) are preconditions; under them the panic!/unreachable arms are proved unreachable'],
+    'bounded': ['has_attribute / has_any_attribute (iterator adaptors any/find over SmallVec): assumed contracts in VX (contains / first element among the given types), exercised by BX on every builder state (C11:query-vs-serialisation)',
+                'add_message_integrity_unchecked / add_fingerprint_unchecked append exactly one attribute of the respective type: assumed in VX, BX compares the serialisation',
+                'whole-sequence behaviour: BX, exhaustive for sequences up to length 5 (quick) / 6 (thorough) over {typed, raw, SHA-1, SHA-256, fingerprint}, random programs up to length 7 with into_owned/clone/duplicates'],
+    'trusted': _BX_TRUST + ['smallvec::SmallVec stand-in (push appends; clone preserves the sequence)', 'mirror of trait AttributeWrite without its supertrait (get_type only)'],
 }
 PROPS['C04'] = {
     'level': 'proof',
@@ -277,7 +283,7 @@ LEVEL_TEXT = {
  'C08': "Exploration: decode side proved - 14 typed decoders in Verus for value strings of ANY length (UTF-8 via vstd::utf8), 5 in Kani (complete); encode side proved for to_raw/length of the string types and the in-place writers of 12 types (C12). Still bounded only: UNKNOWN-ATTRIBUTES decoder (chunks_exact), writers of ERROR-CODE / UNKNOWN-ATTRIBUTES / PASSWORD-ALGORITHMS, constructors - hence exploration.",
  'C09': "Proof: an accepted buffer with a FINGERPRINT at offset o satisfies value == crc32(bytes[..o] with length field o+8-20) ^ 0x5354554e and o+8 == len (clause fp_ok of wf_message, verified for all buffers); XOR constant by Kani for all 2^32 values. That Fingerprint::compute is CRC-32/ISO-HDLC, the builder side and the corruption sweeps are bounded.",
  'C10': "Proof: the iterator is verified to yield exactly the exposure rule of the statement on every accepted message; the 'hence' clauses (non-sealing exposed attributes lie before the end of the first integrity attribute; prefix stability) are spec-level lemmas; validate_integrity checks an exposed attribute over that prefix (C04). Lookups through `find`/`any` are bounded.",
- 'C11': "Exploration: the builder's guard logic is outside both verifiers (SmallVec, dyn); exhaustive operation sequences up to length 5/6 over the sealing alphabet plus random programs are run on the real builder against the ordering rules of the statement.",
+ 'C11': "Exploration: the four guard functions of the real MessageBuilder are verified by Verus against the ordering rules of the statement (refused exactly when ..., refused => builder unchanged, accepted => appended), but over ASSUMED contracts for the two iterator-adaptor query helpers and the two sealing workers (SmallVec/dyn/HMAC are outside the verifier); those assumptions and the whole-sequence statement are decided by exhaustive operation sequences up to length 5/6 over the sealing alphabet plus random programs on the real builder - hence exploration.",
  'C12': "Exploration: for raw attributes and 12 typed attributes the in-place writer, the size guard of write_into and to_bytes are proved equal to the RFC TLV layout for values of any length (Verus), 4 more types by Kani; ERROR-CODE/UNKNOWN-ATTRIBUTES/PASSWORD-ALGORITHMS writers and every MessageBuilder path are bounded - hence exploration.",
  'C13': "Proof: complete Kani harnesses over all IPv4/IPv6 addresses x ports x transaction ids (fixed trip-count loops unwound with assertions): round trip, RFC wire bytes, other transaction id.",
  'C14': "Proof: push_data/pull_data/take verified against the abstract pull step; the stream-level statement (any frame list, any chunking, any interleaving) is theorem_history, an induction over those contracts (unique decoding of the length-prefixed stream).",
